@@ -306,8 +306,8 @@ def history(seed: int, nsteps: int = 10, sources=None, forced=None, forced_how=N
         resave_pack = rng.choice(["folder", "folder", "zip", "mem", "mem"])      # "mem": one and the same io.BytesIO, again and again
         mem_target = io.BytesIO()
         if forced:
-            resave = merging = False
-            retyping = True
+            resave = False
+            merging = retyping = True
             nsteps = len(forced)
         for _ in range(nsteps):
             k += 1
@@ -371,8 +371,11 @@ def history(seed: int, nsteps: int = 10, sources=None, forced=None, forced_how=N
                     if not cands:
                         continue
                     name = rng.choice(sorted(cands))
+                    if want.get("merged"):
+                        cands = [n for n in cands if n in added] or cands
+                        name = sorted(cands)[want["merged"] - 1] if len(cands) >= want["merged"] else sorted(cands)[0]
                     mine = sorted(n for n in cands if n in added)
-                    if mine and rng.random() < 0.5:
+                    if mine and rng.random() < 0.5 and not want.get("merged"):
                         name = rng.choice(mine)  # a file this history added: its content may be added again later
                     doc.del_part(name)
                     if name in added:
@@ -660,6 +663,13 @@ def lazy_clone_history(seed: int) -> list:
 
 def _gen(args):
     seed, n, sources = args
+    if isinstance(sources, tuple) and sources[0] == "merge-sweep":
+        # the styles of another document merged, one of the pictures they brought deleted, merged again, saved, reopened
+        i = sources[1]
+        kinds = ["text", "spreadsheet", "presentation", "drawing"]
+        return history(seed, 7, [kinds[i % 4]],
+                       forced=[{"op": "merge"}, {"op": "save", "packaging": "zip"}, {"op": "del_part", "merged": 1 + (i // 4) % 2}, {"op": "merge"},
+                               {"op": "save", "packaging": ("zip", "folder")[(i // 8) % 2]}, {"op": "reopen"}, {"op": "read"}])
     if isinstance(sources, tuple) and sources[0] == "flat-sweep":
         # every sample file, opened in each way and exported to flat XML before anything else was read, then again after a zip save
         i = sources[1]
@@ -681,6 +691,8 @@ def _gen(args):
 def generate(ntraces: int, seed: int, nsteps: int = 10, procs=None, sources=None) -> list:
     procs = procs or min(16, os.cpu_count() or 4)
     jobs = [(seed * 1_000_033 + i, nsteps, sources) for i in range(ntraces)]
+    if sources == "merge-sweep":
+        jobs = [(seed * 1_000_033 + i, nsteps, ("merge-sweep", i)) for i in range(16)]
     if sources == "flat-sweep":
         jobs = [(seed * 1_000_033 + i, nsteps, ("flat-sweep", i)) for i in range(3 * len(sample_files()))]
     if sources == "retype-sweep":
